@@ -150,16 +150,18 @@ type SolverRes struct {
 }
 
 var solverCmds = map[string][]string{
-	"z3-new": {"z3-new", "-smt2"},
-	"z3":     {"z3", "-smt2"},
-	"cvc5":   {"cvc5", "--lang=smt2"},
+	"z3-new":      {"z3-new", "-smt2", "smt.mbqi=false", "auto_config=false"}, // E-matching only
+	"z3-new-mbqi": {"z3-new", "-smt2"},
+	"z3":          {"z3", "-smt2"},
+	"z3-ematch":   {"z3", "-smt2", "smt.mbqi=false", "auto_config=false"},
+	"cvc5":        {"cvc5", "--lang=smt2"},
 }
 
 func runSolver(name string, file string, timeout time.Duration, extra ...string) SolverRes {
 	args := append([]string{}, solverCmds[name][1:]...)
 	switch name {
-	case "z3", "z3-new":
-		args = append(args, fmt.Sprintf("-T:%d", int(timeout.Seconds())+1), "smt.mbqi=false", "auto_config=false")
+	case "z3", "z3-new", "z3-new-mbqi", "z3-ematch":
+		args = append(args, fmt.Sprintf("-T:%d", int(timeout.Seconds())+1))
 	case "cvc5":
 		args = append(args, fmt.Sprintf("--tlimit=%d", timeout.Milliseconds()))
 	}
@@ -206,8 +208,6 @@ func runIncremental(solver string, file string, total time.Duration) ([]string, 
 	args := append([]string{}, solverCmds[solver][1:]...)
 	if solver == "cvc5" {
 		args = append(args, "--incremental")
-	} else {
-		args = append(args, "smt.mbqi=false", "auto_config=false")
 	}
 	args = append(args, file)
 	cmd := exec.CommandContext(ctx, solverCmds[solver][0], args...)
